@@ -336,6 +336,14 @@ func (c C14) Run(t *tape.Tape, opt core.RunOpt) (res core.Result) {
 					Text: fmt.Sprintf("extend input %s {\n  zz%d: Int = %d\n}\ntype ZzBad%d {\n}\n", tn, k, 1+k, k)}
 				pos := t.Draw(len(frags) + 1)
 				frags = append(frags[:pos], append([]workload.Fragment{p}, frags[pos:]...)...)
+			} else if o := gen.PickLoaded("object"); poisoned && o != nil && !strings.HasPrefix(o.Name, "__") && t.Bool(1, 8) {
+				// an extension with a description of its own on a loaded type, applied,
+				// then the document fails in validation: the type reads as before
+				k := t.Draw(1000)
+				p := workload.Fragment{Kind: "poison:validation:described_extension_then_invalid", Mutates: true,
+					Text: fmt.Sprintf("\"said by the extension\"\nextend type %s {\n  zzx%d: Int\n}\ntype ZzBad%d {\n}\n", o.Name, k, k)}
+				pos := t.Draw(len(frags) + 1)
+				frags = append(frags[:pos], append([]workload.Fragment{p}, frags[pos:]...)...)
 			} else if p, ok := describedInterfacePoison(t, gen); poisoned && ok {
 				pos := t.Draw(len(frags) + 1)
 				frags = append(frags[:pos], append([]workload.Fragment{p}, frags[pos:]...)...)
@@ -541,6 +549,11 @@ func (c C14) Run(t *tape.Tape, opt core.RunOpt) (res core.Result) {
 			case 4:
 				pats = []string{"[bad"}
 				faultDesc = "bad pattern"
+				if t.Bool(1, 2) {
+					// the malformed pattern comes after one that matches valid files
+					pats = []string{"*.graphql", "[bad"}
+					faultDesc = "bad pattern after a good one"
+				}
 			case 5:
 				pats = []string{"*.graphql", "a.*"}
 			}
